@@ -271,7 +271,7 @@ package remote
 //@
 //@ // ---------------------------------------------------------------- referrers capability (C14)
 //@ // 0 unknown, 1 supported, 2 unsupported; other goroutines only ever move it away from 0
-//@ atomic Repository.referrersState changes-only-from 0
+//@ atomic [C14:capability-word] Repository.referrersState changes-only-from 0
 //@ func (*Repository).SetReferrersCapability
 //@   requires [wf] r != nil
 //@   ensures [C14:capability-never-flips] old(r.referrersState) != 0 ==> r.referrersState == old(r.referrersState)
@@ -301,8 +301,19 @@ package remote
 //@   trusted
 //@   modifies alloc, elems[byte], elems[any]
 //@
+//@ // applyReferrerChanges: only the decision "nothing to update" is under contract in this
+//@ // revision (the list algebra - each key once, compaction complete - is not: the obligations
+//@ // were written but the solvers did not discharge the compaction loop; see DESIGN.md 13.7).
+//@ pure isZeroD(d ocispec.Descriptor) bool = d.Size == 0 && d.Digest == "" && d.MediaType == ""
 //@ func applyReferrerChanges
-//@   trusted
+//@   opt trust-nopanic
+//@   opt trust-frame
+//@   loop 0 invariant [objects] referrersMap != nil && alive(referrersMap)
+//@   loop 1 invariant [objects] referrersMap != nil && alive(referrersMap)
+//@   loop 2 invariant [objects] referrersMap != nil && alive(referrersMap) && len(referrersMap) == len(referrers)
+//@   loop 2 invariant [C14:original-referrers-checked-one-by-one] updateRequired || (forall q int :: 0 <= q && q < $i ==> K(referrers[q]) in referrersMap)
+//@   ensures@0 [C14:no-update-only-when-every-original-referrer-is-still-present-and-sizes-agree] result1 == errNoReferrerUpdate && len(result0) == 0 && len(referrersMap) == len(referrers) && (forall q int :: 0 <= q && q < len(referrers) ==> K(referrers[q]) in referrersMap)
+//@   call removeEmptyDescriptors requires [C14:compaction-hint-is-the-number-of-keys] args.hint == len(referrersMap) && args.descs == updatedReferrers
 //@   modifies alloc, elems[ocispec.Descriptor], new map[descriptor.Descriptor]int
 //@
 //@ ghost local uriFound bool
